@@ -462,4 +462,225 @@ theorem getcallargs_agrees_aux (s : Sig) (hs : s.WF) (c : Call) (hkw : (c.kw.map
             have h2 : (k == m) = false := by simpa using hkm
             simp [starEntries, hvar, hkwv, hkm, hkn, List.lookup, h1, h2]
 
+
+/-! ### keys stay distinct -/
+
+theorem keys_set (d : PDict) (k : String) (v : Val) :
+    (d.set k v).map (·.1) = if k ∈ d.map (·.1) then d.map (·.1) else d.map (·.1) ++ [k] := by
+  induction d with
+  | nil => simp [PDict.set]
+  | cons p d ih =>
+    obtain ⟨k0, v0⟩ := p
+    simp only [PDict.set]
+    by_cases h0 : k0 = k
+    · subst h0; simp
+    · have hne : k ≠ k0 := fun e => h0 e.symm
+      simp only [h0, ↓reduceIte, List.map_cons, ih, List.mem_cons, hne, false_or]
+      split <;> simp
+
+theorem nodup_set (d : PDict) (k : String) (v : Val) (h : (d.map (·.1)).Nodup) :
+    ((d.set k v).map (·.1)).Nodup := by
+  rw [keys_set]
+  split
+  · exact h
+  · rename_i hk
+    rw [List.nodup_append]
+    exact ⟨h, by simp, by intro a ha b hb; simp at hb; subst hb; exact fun e => hk (e ▸ ha)⟩
+
+theorem nodup_update (d u : PDict) (h : (d.map (·.1)).Nodup) : ((d.update u).map (·.1)).Nodup := by
+  unfold PDict.update
+  induction u generalizing d with
+  | nil => exact h
+  | cons p u ih => exact ih _ (nodup_set d p.1 p.2 h)
+
+theorem nodup_erase (d : PDict) (k : String) (h : (d.map (·.1)).Nodup) : ((d.erase k).map (·.1)).Nodup :=
+  nodup_filter_keys d _ h
+
+theorem nodup_argspecDefaults (s : Sig) (hs : s.WF) : ((argspecDefaults s).map (·.1)).Nodup :=
+  nodup_zip_keys _ _ (List.Nodup.sublist (List.drop_sublist _ _) hs.1)
+
+theorem nodup_getcallargs (s : Sig) (hs : s.WF) (c : Call) (b : PDict) (h : getcallargs s c = .ok b) :
+    (b.map (·.1)).Nodup := by
+  have h1 := nodup_update (argspecDefaults s) (s.params.zip c.args) (nodup_argspecDefaults s hs)
+  unfold getcallargs at h
+  by_cases hd : ((s.params.zip c.args).any fun p => c.kw.has p.1) = true
+  · simp only [hd, ↓reduceIte] at h; cases h
+  · simp only [hd, Bool.false_eq_true, ↓reduceIte] at h
+    cases hvar : s.varargs with
+    | none =>
+      simp only [hvar] at h
+      by_cases hl : (c.args.drop s.params.length).length > 0
+      · simp only [hl, ↓reduceIte] at h; cases h
+      · simp only [hl, ↓reduceIte] at h
+        cases hkwv : s.varkw with
+        | none => simp only [hkwv] at h; cases h; exact nodup_update _ _ h1
+        | some m => simp only [hkwv] at h; cases h; exact nodup_update _ _ (nodup_set _ _ _ h1)
+    | some n =>
+      simp only [hvar] at h
+      cases hkwv : s.varkw with
+      | none => simp only [hkwv] at h; cases h; exact nodup_update _ _ (nodup_set _ _ _ h1)
+      | some m =>
+        simp only [hkwv] at h; cases h
+        exact nodup_update _ _ (nodup_set _ _ _ (nodup_set _ _ _ h1))
+
+
+/-! ### call_with_callargs -/
+
+theorem filterMap_eq_map {α β} (xs : List α) (f : α → Option β) (g : α → β)
+    (h : ∀ a ∈ xs, f a = some (g a)) : xs.filterMap f = xs.map g := by
+  induction xs with
+  | nil => rfl
+  | cons x xs ih =>
+    simp only [List.filterMap_cons, h x (by simp), List.map_cons]
+    rw [ih fun a ha => h a (by simp [ha])]
+
+/-- the positional arguments `call_with_callargs` passes for the parameters -/
+def boundValues (s : Sig) (c : Call) : List Val := s.params.map fun n => (pyValue s c n).getD (.cell .none)
+
+/-- the call `call_with_callargs` makes after `getcallargs` on a valid call: all parameters positionally, then
+the extra positionals, and the extra keywords -/
+def recalled (s : Sig) (c : Call) : Call :=
+  { args := boundValues s c ++ (match s.varargs with
+      | some _ => c.args.drop s.params.length
+      | none => []),
+    kw := match s.varkw with
+      | some _ => extraKw s c.kw
+      | none => [] }
+
+theorem recall_of_eqv (s : Sig) (hs : s.WF) (c : Call) (b' : PDict) (hn : (b'.map (·.1)).Nodup)
+    (he : PDict.Eqv b' (s.params.map (fun n => (n, (pyValue s c n).getD (.cell .none))) ++ starEntries s c)) :
+    recall s b' = .ok (recalled s c) := by
+  obtain ⟨hnd, hlen, hva, hvk, hvv⟩ := hs
+  have hb : ∀ k, b'.lookup k =
+      if k ∈ s.params then some ((pyValue s c k).getD (.cell .none)) else (starEntries s c).lookup k := by
+    intro k
+    rw [he k, List.lookup_append, lookup_map_self]
+    by_cases hk : k ∈ s.params <;> simp [hk]
+  -- the parameters are read back from `params.update(c)` whatever was popped
+  have hargs : ∀ (c2 : PDict), (c2.map (·.1)).Nodup →
+      (∀ a ∈ s.params, c2.lookup a = b'.lookup a) →
+      (s.params.filterMap fun a => ((argspecDefaults s).update c2).lookup a) = boundValues s c := by
+    intro c2 hn2 h2
+    apply filterMap_eq_map
+    intro a ha
+    rw [lookup_update_nodup _ _ hn2, h2 a ha, hb a]
+    simp [ha]
+  unfold recall recalled
+  cases hvar : s.varargs with
+  | none =>
+    cases hkwv : s.varkw with
+    | none =>
+      simp only
+      rw [hargs b' hn (fun _ _ => rfl)]
+    | some m =>
+      have hm : b'.lookup m = some (.dict (extraKw s c.kw)) := by
+        rw [hb m]; simp [hvk m hkwv, starEntries, hvar, hkwv]
+      simp only [hm, dictItems]
+      rw [hargs (b'.erase m) (nodup_erase _ _ hn) (by
+        intro a ha
+        rw [lookup_erase]
+        have : a ≠ m := fun e => hvk m hkwv (e ▸ ha)
+        simp [this])]
+  | some n =>
+    have hnl : b'.lookup n = some (.tuple (c.args.drop s.params.length)) := by
+      rw [hb n]; simp [hva n hvar, starEntries, hvar]
+    cases hkwv : s.varkw with
+    | none =>
+      simp only [hnl, tupleItems]
+      rw [hargs (b'.erase n) (nodup_erase _ _ hn) (by
+        intro a ha
+        rw [lookup_erase]
+        have : a ≠ n := fun e => hva n hvar (e ▸ ha)
+        simp [this])]
+    | some m =>
+      have hnm : n ≠ m := hvv n m hvar hkwv
+      have hm : (b'.erase n).lookup m = some (.dict (extraKw s c.kw)) := by
+        rw [lookup_erase, hb m]
+        have hmn : m ≠ n := fun e => hnm e.symm
+        have h1 : (m == n) = false := by simpa using hmn
+        simp [hvk m hkwv, starEntries, hvar, hkwv, hmn, List.lookup, h1]
+      simp only [hnl, tupleItems, hm, dictItems]
+      rw [hargs ((b'.erase n).erase m) (nodup_erase _ _ (nodup_erase _ _ hn)) (by
+        intro a ha
+        rw [lookup_erase, lookup_erase]
+        have h1 : a ≠ n := fun e => hva n hvar (e ▸ ha)
+        have h2 : a ≠ m := fun e => hvk m hkwv (e ▸ ha)
+        simp [h1, h2])]
+
+
+theorem boundValues_length (s : Sig) (c : Call) : (boundValues s c).length = s.params.length := by
+  simp [boundValues]
+
+theorem pyValue_recalled (s : Sig) (c : Call) (n : String) (hn : n ∈ s.params) :
+    pyValue s (recalled s c) n = some ((pyValue s c n).getD (.cell .none)) := by
+  have hi : s.params.idxOf n < s.params.length := List.idxOf_lt_length_of_mem hn
+  have hlen : s.params.idxOf n < (recalled s c).args.length := by
+    simp only [recalled, List.length_append, boundValues_length]; omega
+  unfold pyValue
+  simp only [hlen, ↓reduceIte]
+  have hi' : s.params.idxOf n < (boundValues s c).length := by rw [boundValues_length]; exact hi
+  simp only [recalled]
+  rw [List.getElem?_append_left hi']
+  simp only [boundValues, List.getElem?_map]
+  have : s.params[s.params.idxOf n]? = some n := by
+    rw [List.getElem?_eq_getElem hi]
+    simp
+  simp only [this, Option.map_some]
+  rfl
+
+theorem extraKw_idem (s : Sig) (kw : PDict) : extraKw s (extraKw s kw) = extraKw s kw := by
+  simp [extraKw, List.filter_filter]
+
+/-- re-binding the call that `call_with_callargs` makes gives the original binding -/
+theorem bindRef_recalled (s : Sig) (c : Call) (b : PDict) (h : bindRef s c = .ok b) :
+    bindRef s (recalled s c) = .ok b := by
+  obtain ⟨_, _, _, hD, rfl⟩ := bindRef_ok s c b h
+  have hlen : (recalled s c).args.length = s.params.length + (match s.varargs with
+      | some _ => (c.args.drop s.params.length).length | none => 0) := by
+    simp only [recalled, List.length_append, boundValues_length]
+    cases s.varargs <;> simp
+  have hA : ¬((recalled s c).args.length > s.params.length ∧ s.varargs = none) := by
+    rintro ⟨h1, h2⟩
+    rw [hlen, h2] at h1
+    simp at h1
+  have hB : ((recalled s c).kw.any fun p => (s.params.take (recalled s c).args.length).contains p.1) = false := by
+    rw [List.any_eq_false]
+    intro p hp hc
+    have hmem : p ∈ extraKw s c.kw := by
+      simp only [recalled] at hp
+      cases hv : s.varkw with
+      | none => simp [hv] at hp
+      | some m => simpa [hv] using hp
+    simp only [extraKw, List.mem_filter, Bool.not_eq_true', List.contains_eq_mem, decide_eq_false_iff_not] at hmem
+    have h1 : p.1 ∈ s.params := by
+      have := List.mem_of_mem_take (by simpa using hc : p.1 ∈ s.params.take (recalled s c).args.length)
+      exact this
+    exact hmem.2 h1
+  have hC : ¬(s.varkw = none ∧ extraKw s (recalled s c).kw ≠ []) := by
+    rintro ⟨h1, h2⟩
+    apply h2
+    simp [recalled, h1, extraKw]
+  have hD' : (s.params.all fun n => (pyValue s (recalled s c) n).isSome) = true := by
+    rw [List.all_eq_true]
+    intro n hn
+    rw [pyValue_recalled s c n hn]; rfl
+  have hstar : starEntries s (recalled s c) = starEntries s c := by
+    unfold starEntries
+    congr 1
+    · cases hv : s.varargs with
+      | none => rfl
+      | some n =>
+        simp only [recalled, hv]
+        rw [List.drop_left' (boundValues_length s c)]
+    · cases hv : s.varkw with
+      | none => rfl
+      | some m => simp only [recalled, hv, extraKw_idem]
+  unfold bindRef
+  simp only [hA, hB, hC, hD', ↓reduceIte, Bool.false_eq_true, hstar]
+  congr 2
+  apply List.map_congr_left
+  intro n hn
+  rw [pyValue_recalled s c n hn]
+  rfl
+
 end Pyg
